@@ -108,7 +108,7 @@ def explore(ctx, label, make_jobs, bound=1, cap=600, sig=None, case=None):
                     t, _short(now), _short(expected[t])), ov)
                 return
 
-    stats = sched.explore(codes, make_jobs, check, bound, max_schedules=cap)
+    stats = sched.explore(codes, make_jobs, check, bound, max_schedules=cap, max_seconds=1200 if ctx.tier != 'quick' else None)
     ctx.count('distinct interleavings (trace fingerprints)', len(stats['fingerprints']))
     ctx.count('single-preemption schedules executed', stats['by_preemptions'].get(1, 0))
     ctx.note('thread schedules %s: %d threads, bound %d: %d schedules (by preemptions %r, %d left unexplored by the cap), %d distinct '
